@@ -1,5 +1,7 @@
 #!/bin/bash
-# tools/seedall.sh [procs] — runs every seed of seeded/ against the check of its property (quick tier); summary in /tmp/seedall.txt
-procs=${1:-8}; cd /verif; rm -f /tmp/seedall.txt
-for d in $(ls seeded | grep -E '^C[0-9]+-[0-9]+$'); do p=${d%-*}; r=$(tools/seedtest.sh $p seeded/$d/patch.diff quick --procs $procs 2>&1 | tail -1); echo "$r" >> /tmp/seedall.txt; done
+# tools/seedall.sh [procs per run] [parallel runs] — runs every seed of seeded/ against the check of its property (quick tier);
+# summary in /tmp/seedall.txt
+procs=${1:-8}; par=${2:-1}; cd /verif; rm -f /tmp/seedall.txt
+ls seeded | grep -E '^C[0-9]+-[0-9]+$' | xargs -P $par -I{} sh -c 'd={}; p=${d%-*}; r=$(tools/seedtest.sh $p seeded/$d/patch.diff quick --procs '$procs' 2>&1 | tail -1); echo "$r" >> /tmp/seedall.txt'
+sort -o /tmp/seedall.txt /tmp/seedall.txt
 echo DONE >> /tmp/seedall.txt
